@@ -29,14 +29,16 @@ open Nebula.P256
 with a signer the certificate is not a CA, lies within the signer's window / groups / networks / unsafe
 networks (the verifier's relation) and the signer has a fingerprint, without a signer it is a CA; the
 version is known and `validate` passes; marshalling, the signing primitive and (P-256) normalisation succeed
-with a non-empty signature. The result is the validated certificate with issuer and signature filled in. -/
+with a non-empty signature; and a v2 certificate's encoding does not exceed the decoder's `MaxCertificateSize`
+(`E.tooLarge`; added with the repair of the signer/decoder disagreement on size). The result is the validated
+certificate with issuer and signature filled in. -/
 theorem sign_ok_iff (E : SignEnv) (signer : Option Cert) (keyCurve : Nat) (t c : Cert) :
     signWith E signer keyCurve t = .ok c ↔
-      keyCurve = t.curve ∧ ∃ iss, issuerOK E signer t iss ∧
+      (keyCurve = t.curve ∧ ∃ iss, issuerOK E signer t iss ∧
       ∃ v, validateVersion (fromTBS t iss) = some (.ok v) ∧
       ∃ bytes sig0 sig, E.tbsBytes v = some bytes ∧ E.sign bytes = some sig0 ∧
         (if keyCurve = curveP256 then E.normalize sig0 else some sig0) = some sig ∧ sig ≠ [] ∧
-        c = { v with signature := sig } :=
+        c = { v with signature := sig }) ∧ (c.version = 2 → E.tooLarge c = false) :=
   signWith_ok_iff E signer keyCurve t c
 
 /-- What an issued certificate is: the requested fields (network lists possibly reordered by v2 validation),
@@ -48,7 +50,7 @@ theorem issued_fields (E : SignEnv) (signer : Option Cert) (keyCurve : Nat) (t c
     c.publicKey = t.publicKey ∧
     (∀ n, n ∈ c.networks ↔ n ∈ t.networks) ∧ (∀ n, n ∈ c.unsafeNetworks ↔ n ∈ t.unsafeNetworks) ∧
     issuerOK E signer t c.issuer ∧ c.signature ≠ [] := by
-  obtain ⟨hk, iss, hi, v, hv, bytes, sig0, sig, -, -, -, hne, rfl⟩ := (signWith_ok_iff E signer keyCurve t c).mp h
+  obtain ⟨hk, iss, hi, v, hv, bytes, sig0, sig, -, -, -, hne, rfl⟩ := ((signWith_ok_iff E signer keyCurve t c).mp h).1
   obtain ⟨h1, h2, h3, h4, h5, h6, h7, h8, h9, -, h11, h12⟩ := validateVersion_ok hv
   simp only [fromTBS] at h1 h2 h3 h4 h5 h6 h7 h8 h9 h11 h12 ⊢
   rw [h8]
